@@ -13,7 +13,9 @@
   Helper lemmas: PosterModel/Lemmas/World.lean, WorldFrame.lean, WorldRun.lean.
 -/
 import PosterModel.Lemmas.WorldRun
+import PosterModel.Lemmas.WorldSweep
 import PosterModel.Properties.C03
+import PosterModel.Lemmas.WorldEx
 
 set_option linter.unusedVariables false
 set_option linter.unusedSimpArgs false
@@ -323,6 +325,93 @@ theorem framing_pending_only_from_reader (s : Rx) (rs : List ReadEv) (s' : Rx) (
   · exact Or.inl a
   · exact Or.inr ⟨pre, a, b⟩
 
+/-- **A sweep over a quiescent world is a no-op.** Suppose every live task is waiting and nothing it waits
+    for has happened: the context future (if any) has an empty queue, nothing to read, a live sender and an
+    idle framing machine; every operation waits on a oneshot without a value; every stream has an empty channel
+    whose sender is alive. Then `exec=sweep` — polling every live task that is not flagged, once — changes
+    nothing but waker registrations: after erasing the registrations (`eraseRegs`: transport waker, queue
+    waker, oneshot wakers, stream wakers) the world is the same. In particular nothing is observed or written,
+    no task is woken, no state of the session, the framing layer, an operation, a oneshot or a stream moves. -/
+theorem sweep_of_quiescent_is_noop (w : World)
+    (hctx : w.task = .none ∨
+      (w.task = .running true ∧ w.queue = [] ∧ w.reader = [] ∧ 0 < w.senders ∧ w.rx.st = .idle) ∨
+      (∃ call t a, w.task = .connecting call t a true ∧ w.reader = [] ∧ w.rx.st = .idle))
+    (hops : ∀ id st, w.opSt id = some st → ∃ s k, st = .wait s k ∧ w.slot s = some .empty)
+    (hsts : ∀ id, id ∈ w.streams → ∃ ch, w.chan id = some ch ∧ ch.buf = [] ∧ ch.txAlive = true) :
+    World.eraseRegs w.sweep = World.eraseRegs w ∧
+    w.sweep.out = w.out ∧ w.sweep.wirePend = w.wirePend ∧ w.sweep.written = w.written ∧
+    w.sweep.woken = w.woken ∧ w.sweep.task = w.task ∧ w.sweep.c = w.c ∧ w.sweep.rx = w.rx ∧
+    w.sweep.reader = w.reader ∧ w.sweep.queue = w.queue ∧ w.sweep.ops = w.ops ∧ w.sweep.slots = w.slots ∧
+    w.sweep.streams = w.streams ∧
+    (∀ id, (w.sweep.chan id).map (fun c => (c.buf, c.txAlive, c.rxAlive)) =
+      (w.chan id).map (fun c => (c.buf, c.txAlive, c.rxAlive))) := by
+  have h := World.sweep_quiescent w ⟨hctx, hops, hsts⟩
+  refine ⟨h, ?_, ?_, ?_, ?_, ?_, ?_, ?_, ?_, ?_, ?_, ?_, ?_, ?_⟩
+  · have := congrArg World.out h; exact this
+  · have := congrArg World.wirePend h; exact this
+  · have := congrArg World.written h; exact this
+  · have := congrArg World.woken h; exact this
+  · have := congrArg World.task h; exact this
+  · have := congrArg World.c h; exact this
+  · have := congrArg World.rx h; exact this
+  · have := congrArg World.reader h; exact this
+  · have := congrArg World.queue h; exact this
+  · have := congrArg World.ops h; exact this
+  · have := congrArg World.slots h; exact this
+  · have := congrArg World.streams h; exact this
+  · intro id
+    have hc : w.sweep.chans.map (fun kc => (kc.1, { kc.2 with reg := false })) =
+        w.chans.map (fun kc => (kc.1, { kc.2 with reg := false })) := by
+      have := congrArg World.chans h; exact this
+    have e1 := World.lookupFirst_map_eraseReg id w.sweep.chans
+    have e2 := World.lookupFirst_map_eraseReg id w.chans
+    rw [hc, e2] at e1
+    simp only [World.chan]
+    cases h1 : lookupFirst id w.chans <;> cases h2 : lookupFirst id w.sweep.chans <;>
+      simp_all
+
+/-! ## Non-vacuity: the hypotheses are satisfiable and the conclusions are not trivial (worlds of Lemmas/WorldEx.lean) -/
+section NonVacuity
+open Ex
+
+/-- the hypotheses of the `*_spurious` theorems hold in `wRun` for operation 1, stream 3 and `run()` … -/
+example : wRun.opSt 1 = some (.wait 2 .puback) ∧ wRun.slot 2 = some .empty ∧ 2 ∈ wRun.slotReg ∧
+    3 ∈ wRun.streams ∧ wRun.chan 3 = some { buf := [], reg := true } ∧ wRun.task = .running true ∧
+    wRun.queue = [] ∧ wRun.reader = [] ∧ 0 < wRun.senders ∧ wRun.rx.st = .idle := by decide
+/-- … so extra polls of the registered operation and stream leave the world literally unchanged -/
+example : wRun.pollOp 1 = wRun ∧ wRun.pollStream 3 = wRun :=
+  ⟨(pollOp_spurious wRun 1 2 .puback (by decide) (by decide)).2.2 (by decide),
+   (pollStream_spurious wRun 3 { buf := [], reg := true } (by decide) (by decide) rfl rfl).2.2.2 rfl⟩
+/-- … and an extra poll of `run()` only arms its two wakers -/
+example : wRun.pollCtx = { wRun with readerReg := true, queueReg := true } :=
+  (pollCtx_spurious_running wRun rfl rfl rfl (by decide) rfl).1
+/-- the PUBACK arriving wakes operation 1; a PUBLISH delivered wakes stream 3 (`wake_on_every_event`) -/
+example : Task.op 1 ∈ (wRun.sendSlot 2 (.pkt (.puback { packetId := 1 }))).woken ∧
+    Task.st 3 ∈ (wRun.deliver 3 { topic := [0x61] }).woken := by decide
+/-- a handle queueing a message wakes a registered `run()`; bytes arriving wake a registered reader -/
+example : ∀ w', ({ wRun with queueReg := true } : World).sendMsg (.ff [0xC0, 0] 8) = some w' → Task.ctx ∈ w'.woken :=
+  fun w' h => (wake_on_every_event _).2.2.1 _ w' h rfl
+example : Task.ctx ∈ (({ wRun with readerReg := true } : World).feedEvents [.data [0xD0, 0]]).woken :=
+  (wake_on_every_event _).2.2.2.2 _ rfl
+/-- the woken operation then completes: the value is not lost -/
+example : ((wRun.sendSlot 2 (.pkt (.puback { packetId := 1 }))).pollOp 1).out = [.done 1 .ok] := by decide
+/-- `wRun` satisfies the hypotheses of `sweep_of_quiescent_is_noop` (apart from its not-yet-polled operation 5,
+    removed here), so a sweep leaves it as it is -/
+example : World.eraseRegs ({ wRun with ops := [(1, .wait 2 .puback)] } : World).sweep =
+    World.eraseRegs { wRun with ops := [(1, .wait 2 .puback)] } := by
+  refine (sweep_of_quiescent_is_noop _ (Or.inr (Or.inl ⟨rfl, rfl, rfl, by decide, rfl⟩)) ?_ ?_).1
+  · intro id st h
+    simp only [World.opSt, wRun, lookupFirst] at h
+    split at h
+    · simp only [Option.some.injEq] at h; subst h; exact ⟨2, .puback, rfl, by decide⟩
+    · cases h
+  · intro id hid
+    simp only [wRun, List.mem_singleton] at hid
+    subst hid
+    exact ⟨{ buf := [], reg := true }, by decide, rfl, rfl⟩
+
+end NonVacuity
+
 #print axioms pollOp_spurious
 #print axioms pollStream_spurious
 #print axioms pollCtx_spurious_running
@@ -335,5 +424,6 @@ theorem framing_pending_only_from_reader (s : Rx) (rs : List ReadEv) (s' : Rx) (
 #print axioms wake_on_every_event
 #print axioms wakeups_only_added
 #print axioms framing_pending_only_from_reader
+#print axioms sweep_of_quiescent_is_noop
 
 end Poster
